@@ -25,23 +25,38 @@ def _args(params: str) -> List[str]:
     return [p.strip().strip('"') for p in params.split(",")] if params else []
 
 
-def run_behaviour(beh, door: str, rng: random.Random, durations=(3, 3)) -> Dict[str, Any]:
-    cfg = scenarios.p2p()
+def run_behaviour(beh, door: str, rng: random.Random, durations=(3, 3), power: str = "on") -> Dict[str, Any]:
+    """power: "on" (the node stays ON, as the behaviours of the model assume), "cycle" (shut-down / start-up / reset requests are
+    interleaved; the model's MPower steps are executed too) or "declared_off" (the scenario declares the host OFF, with files)."""
+    pdur = rng.choice([0, 1, 2])
+    cfg = scenarios.p2p(dur=pdur)
+    if power == "declared_off":
+        cfg["simulation"]["network"]["nodes"][0]["operating_state"] = "OFF"
+        cfg["simulation"]["network"]["nodes"][0]["folders"] = [
+            {"folder_name": "f", "files": [{"file_name": "a.txt"}, {"file_name": "b.txt"}]}, {"folder_name": "g"}]
     game = scenarios.build(cfg)
     sim = game.simulation
     node = sim.network.get_node_by_hostname("a")
     fs = node.file_system
+
+    def is_on():
+        return node.operating_state.name == "ON"
     for fo in fs.folders.values():
         fo.scan_duration, fo.restore_duration = durations
     fs._default_folder_scan_duration, fs._default_folder_restore_duration = durations
     proj = FsProjector(fs)
     p0 = proj.project()
-    trace = {"cfg": {"folders": p0["folders"], "files": p0["files"]}, "ev": [], "meta": {"door": door},
-             "stimulus": {"door": door, "ops": []}}
+    trace = {"cfg": {"folders": p0["folders"], "files": p0["files"], "on": is_on(), "nc": p0["nc"], "nd": p0["nd"]}, "ev": [], "meta": {"door": door, "power": power},
+             "stimulus": {"door": door, "power": power, "power_durations": pdur, "ops": []}}
 
     def emit(ev, fo="", fi="", ok=False, raised=False):
         p = proj.project()
-        trace["ev"].append({"ev": ev, "fo": fo, "fi": fi, "ok": bool(ok), "raised": bool(raised), **p})
+        trace["ev"].append({"ev": ev, "fo": fo, "fi": fi, "ok": bool(ok), "raised": bool(raised), "on": is_on(), **p})
+
+    def power_op():
+        st = node.operating_state.name
+        verb = rng.choice(["shutdown", "reset"]) if st == "ON" else ("startup" if st == "OFF" else rng.choice(["startup", "shutdown"]))
+        return sim.apply_request(["network", "node", "a", verb])
 
     def req(tail):
         return sim.apply_request(["network", "node", "a", "file_system"] + tail)
@@ -91,6 +106,9 @@ def run_behaviour(beh, door: str, rng: random.Random, durations=(3, 3)) -> Dict[
             steps.append(("PreTick",))
         elif a == "MTick":
             steps.append(("Tick",))
+        elif a == "MPower":
+            if power != "on":
+                steps.append(("Power",))
         else:
             ev = a[1:]
             steps.append((ev, args[0], args[1] if len(args) > 1 else ""))
@@ -99,6 +117,11 @@ def run_behaviour(beh, door: str, rng: random.Random, durations=(3, 3)) -> Dict[
                 steps.append(("FileOp", rng.choice(names_fo), rng.choice(names_fi)))
             if rng.random() < 0.2:
                 steps.append(("FolderOp", rng.choice(names_fo), ""))
+            if power != "on" and rng.random() < 0.15:
+                # (a power request in the same step as an operation, and the start of the next tick right after it)
+                steps.append(("Power",))
+                if rng.random() < 0.5:
+                    steps.append(("PreTick",))
         for s in steps:
             trace["stimulus"]["ops"].append(list(s))
             if s[0] == "PreTick":
@@ -107,10 +130,18 @@ def run_behaviour(beh, door: str, rng: random.Random, durations=(3, 3)) -> Dict[
             elif s[0] == "Tick":
                 game.advance_timestep()
                 emit("Tick", ok=True)
+            elif s[0] == "Power":
+                r = power_op()
+                emit("Power", ok=getattr(r, "status", None) == "success")
             else:
                 try:
+                    was_on = is_on()
                     r = do(*s)
+                    if is_on() != was_on:
+                        raise tlc.TLCError(f"harness: a file-system operation changed the node's power state ({s})")
                     emit(s[0], s[1], s[2], getattr(r, "status", None) == "success")
+                except tlc.TLCError:
+                    raise
                 except Exception as e:  # noqa - an exception out of repository code is an event no module allows
                     emit(s[0], s[1], s[2], False, raised=True)
                     trace["meta"]["exception"] = repr(e)
@@ -120,6 +151,10 @@ def run_behaviour(beh, door: str, rng: random.Random, durations=(3, 3)) -> Dict[
 
 def sig_fn(tr, event, stuck):
     return {"door": tr["meta"]["door"], "op": event.get("ev")}
+
+
+def power_of(i: int) -> str:
+    return ("on", "on", "on", "cycle", "cycle", "declared_off", "on", "cycle")[i % 8]
 
 
 def main(tier: str, seed: int) -> int:
@@ -144,12 +179,18 @@ def main(tier: str, seed: int) -> int:
     for i, beh in enumerate(behs):
         door = doors[i % 3]
         d = rng.choice([(1, 1), (2, 1), (3, 3), (1, 2)])
-        tr = run_behaviour(beh, door, rng, d)
+        tr = run_behaviour(beh, door, rng, d, power_of(i // 3))
         traces.append(tr)
-        chk.add_case({"door": door, "ops": tr["stimulus"]["ops"]},
+        chk.add_case({"door": door, "power": tr["stimulus"]["power"], "ops": tr["stimulus"]["ops"]},
                      nontrivial=any(o[0] in ("DeleteFile", "DeleteFolder") for o in tr["stimulus"]["ops"]))
     res = tlc.validate("FileSystemTrace", traces, chunk=100)
     common.judge_traces(chk, "FileSystem", traces, res, sig_fn, selftest="FileSystemTrace")
+    n_off_pretick = sum(1 for tr in traces for e in tr["ev"] if e["ev"] == "PreTick" and not e["on"])
+    n_off_refused = sum(1 for tr in traces for e in tr["ev"] if e["ev"] not in ("PreTick", "Tick", "Power") and not e["on"])
+    if n_off_pretick == 0 or n_off_refused == 0:
+        raise tlc.TLCError("vacuous: no tick started / no operation was attempted while the node was not ON")
+    chk.notes.append(f"{n_off_pretick} ticks started and {n_off_refused} operations were attempted while the node was not ON "
+                     f"(shutting down, off, booting; incl. hosts declared OFF with files)")
     for tr in traces[1:3]:
         chk.sample({"door": tr["meta"]["door"], "ops": tr["stimulus"]["ops"][:8], "last_event": tr["ev"][-1] if tr["ev"] else None})
     chk.assumptions += [
